@@ -9,6 +9,7 @@ set_option linter.unusedVariables false
 
 namespace Gotlcp.Lemmas.DtlcpTx
 open Gotlcp.Model.DtlcpTx
+open Gotlcp.Model
 
 /-- the two clamps: the result is the raw budget cut to `[1, maxPlaintext]` -/
 theorem maxPayload_eq (k : Consts) (pmtu : Int) (c : Cipher) :
@@ -118,5 +119,132 @@ theorem padded_le (pl q bs : Nat) (hbs : 0 < bs) (h : pl < q * bs) :
   have : (pl / bs + 1) * bs ≤ q * bs := Nat.mul_le_mul_right bs hq
   have e : (pl / bs + 1) * bs = bs * (pl / bs) + bs := by rw [Nat.add_mul, Nat.one_mul, Nat.mul_comm]
   omega
+
+/-! ### header bytes and the receive step -/
+
+theorem beBytes_length (k x : Nat) : (beBytes k x).length = k := by
+  induction k with
+  | zero => rfl
+  | succ k ih => simp [beBytes, ih]
+
+theorem beNat_aux (k x acc : Nat) :
+    (beBytes k x).foldl (fun a (b : UInt8) => a * 256 + b.toNat) acc = acc * 256 ^ k + x % 256 ^ k := by
+  induction k generalizing acc with
+  | zero => simp [beBytes, Nat.mod_one]
+  | succ k ih =>
+    simp only [beBytes, List.foldl_cons]
+    rw [ih]
+    have h1 : (UInt8.ofNat (x / 256 ^ k)).toNat = x / 256 ^ k % 256 := by
+      rw [UInt8.toNat_ofNat']
+    rw [h1, Nat.mod_pow_succ, Nat.pow_succ]
+    generalize x / 256 ^ k % 256 = q
+    generalize x % 256 ^ k = r
+    generalize 256 ^ k = m
+    rw [Nat.add_mul, Nat.mul_assoc, Nat.mul_comm 256 m, Nat.mul_comm q m]
+    omega
+
+theorem beNat_beBytes (k x : Nat) (h : x < 256 ^ k) : beNat (beBytes k x) = x := by
+  unfold beNat
+  rw [beNat_aux, Nat.mod_eq_of_lt h]; omega
+
+/-- the law record protection has to satisfy (hypothesis of the identity theorems) -/
+structure Laws (P : Protect) : Prop where
+  /-- `decrypt (encrypt p) = p` under the same record identity (C04's round trip) -/
+  roundtrip : ∀ id p, P.unprotect id (P.protect id p) = some p
+  /-- a protected record of at most 16384 plaintext bytes has a 16-bit length -/
+  short : ∀ id (p : Bytes), p.length ≤ 16384 → (P.protect id p).length < 65536
+
+/-- header fields read back from a datagram -/
+theorem parse_datagram (P : Protect) (id : RecId) (payload : Bytes)
+    (ht : id.typ < 256) (hv : id.vers < 65536) (he : id.epoch < 65536) (hs : id.seq < 2 ^ 48)
+    (hl : (P.protect id payload).length < 65536) :
+    let d := datagram P id payload
+    d.length = 13 + (P.protect id payload).length ∧
+    (d.getD 0 0).toNat = id.typ ∧ beNat ((d.drop 1).take 2) = id.vers ∧ beNat ((d.drop 3).take 2) = id.epoch ∧
+    beNat ((d.drop 5).take 6) = id.seq ∧ beNat ((d.drop 11).take 2) = (P.protect id payload).length ∧
+    (d.drop 13) = P.protect id payload := by
+  have e2 : ∀ x, beBytes 2 x = [UInt8.ofNat (x / 256 ^ 1), UInt8.ofNat (x / 256 ^ 0)] := fun x => rfl
+  have e6 : ∀ x, beBytes 6 x = [UInt8.ofNat (x / 256 ^ 5), UInt8.ofNat (x / 256 ^ 4), UInt8.ofNat (x / 256 ^ 3),
+      UInt8.ofNat (x / 256 ^ 2), UInt8.ofNat (x / 256 ^ 1), UInt8.ofNat (x / 256 ^ 0)] := fun x => rfl
+  simp only []
+  unfold datagram recordHeader
+  refine ⟨?_, ?_, ?_, ?_, ?_, ?_, ?_⟩
+  · simp [beBytes_length]; omega
+  · simp [UInt8.toNat_ofNat']; omega
+  · have : ((UInt8.ofNat id.typ :: (beBytes 2 id.vers ++ beBytes 2 id.epoch ++ beBytes 6 id.seq ++
+        beBytes 2 (P.protect id payload).length) ++ P.protect id payload).drop 1).take 2 = beBytes 2 id.vers := by
+      simp [e2, e6]
+    rw [this]; exact beNat_beBytes 2 _ (by omega)
+  · have : ((UInt8.ofNat id.typ :: (beBytes 2 id.vers ++ beBytes 2 id.epoch ++ beBytes 6 id.seq ++
+        beBytes 2 (P.protect id payload).length) ++ P.protect id payload).drop 3).take 2 = beBytes 2 id.epoch := by
+      simp [e2, e6]
+    rw [this]; exact beNat_beBytes 2 _ (by omega)
+  · have : ((UInt8.ofNat id.typ :: (beBytes 2 id.vers ++ beBytes 2 id.epoch ++ beBytes 6 id.seq ++
+        beBytes 2 (P.protect id payload).length) ++ P.protect id payload).drop 5).take 6 = beBytes 6 id.seq := by
+      simp [e2, e6]
+    rw [this]; exact beNat_beBytes 6 _ (by omega)
+  · have : ((UInt8.ofNat id.typ :: (beBytes 2 id.vers ++ beBytes 2 id.epoch ++ beBytes 6 id.seq ++
+        beBytes 2 (P.protect id payload).length) ++ P.protect id payload).drop 11).take 2
+          = beBytes 2 (P.protect id payload).length := by
+      simp [e2, e6]
+    rw [this]; exact beNat_beBytes 2 _ (by omega)
+  · simp [e2, e6]
+
+/-- the receive step on a genuine application-data datagram whose sequence number is ahead
+of the window: the payload is handed up, the window's right edge becomes that number -/
+theorem rxStep_genuine (P : Protect) (L : Laws P) (rp : Replay.Params) (cfgWin : Int) (path : RxPath)
+    (st : RxState) (vers epoch seq : Nat) (payload : Bytes)
+    (hv : vers < 65536) (he : epoch < 65536) (hs : seq < 2 ^ 48)
+    (hp1 : 0 < payload.length) (hp2 : payload.length ≤ 16384)
+    (hep : st.readEpoch = epoch) (hw : st.win.right < seq) :
+    ∃ st', rxStep P 13 rp cfgWin path st (datagram P ⟨23, vers, epoch, seq⟩ payload) = (st', .data payload) ∧
+      st'.readEpoch = epoch ∧ st'.win.right = seq := by
+  have hl := L.short ⟨23, vers, epoch, seq⟩ payload hp2
+  obtain ⟨h0, h1, h2, h3, h4, h5, h6⟩ := parse_datagram P ⟨23, vers, epoch, seq⟩ payload (show (23 : Nat) < 256 by omega) hv he hs hl
+  simp only [] at h0 h1 h2 h3 h4 h5 h6
+  unfold rxStep
+  have a1 : ¬ (datagram P ⟨23, vers, epoch, seq⟩ payload).length < 13 := by omega
+  simp only [a1, if_false, h1, h2, h3, h4, h5, h6]
+  have a2 : ¬ 13 + (P.protect ⟨23, vers, epoch, seq⟩ payload).length > (datagram P ⟨23, vers, epoch, seq⟩ payload).length := by omega
+  simp only [a2, if_false, List.take_length, L.roundtrip]
+  have a3 : ¬ epoch < st.readEpoch := by omega
+  have a4 : ¬ epoch > st.readEpoch := by omega
+  simp only [a3, a4, if_false]
+  have hc : Replay.check rp st.win seq =
+      ({ st.win with bitmap := (if seq - st.win.right ≥ Replay.span rp st.win then 0#64 else st.win.bitmap <<< (seq - st.win.right)) ||| 1#64,
+                     right := seq }, true) := by
+    unfold Replay.check
+    have : seq > st.win.right := hw
+    simp only [this, if_true]
+  rw [hc]
+  have hne : payload.isEmpty = false := by
+    cases payload with
+    | nil => simp at hp1
+    | cons a t => rfl
+  simp only [Bool.not_true, Bool.false_eq_true, if_false, beq_self_eq_true, if_true, hne, Bool.and_false]
+  exact ⟨_, rfl, hep, rfl⟩
+
+theorem rxRun_pieces (P : Protect) (L : Laws P) (rp : Replay.Params) (cfgWin : Int) (path : RxPath)
+    (vers epoch : Nat) (hv : vers < 65536) (he : epoch < 65536) (pieces : List Bytes)
+    (hp : ∀ p ∈ pieces, 0 < p.length ∧ p.length ≤ 16384) :
+    ∀ (seq : Nat) (st : RxState), seq + pieces.length ≤ 2 ^ 48 → st.readEpoch = epoch → st.win.right < seq →
+      (rxRun P 13 rp cfgWin path st (txDatagrams P 23 vers epoch seq pieces)).2 = pieces.map RxOut.data := by
+  induction pieces with
+  | nil => intro seq st _ _ _; rfl
+  | cons p ps ih =>
+    intro seq st hseq hep hw
+    simp only [txDatagrams, rxRun, List.map_cons]
+    have hpp := hp p List.mem_cons_self
+    obtain ⟨st', hstep, hep', hw'⟩ := rxStep_genuine P L rp cfgWin path st vers epoch seq p hv he
+      (by simp only [List.length_cons] at hseq; omega) hpp.1 hpp.2 hep hw
+    rw [hstep]
+    simp only []
+    rw [ih (fun q hq => hp q (List.mem_cons_of_mem _ hq)) (seq + 1) st'
+      (by simp only [List.length_cons] at hseq; omega) hep' (by omega)]
+
+theorem received_data (pieces : List Bytes) : received (pieces.map RxOut.data) = pieces.flatten := by
+  induction pieces with
+  | nil => rfl
+  | cons p ps ih => simp [received, ih]
 
 end Gotlcp.Lemmas.DtlcpTx
